@@ -77,7 +77,7 @@ static void proj_copy(Proj& d, const Proj& s)
 }
 
 // ---- kept iterators (C05): one record per live element, indexed by serial
-struct Kept { const void* item; const void* addr; char cont; };
+struct Kept { const void* item; const void* addr; int addrid; char cont; };
 static Kept* kept = 0;
 static long kept_cap = 0;
 static unsigned char* livemark = 0;   // per serial: container that currently lists it (this observation)
@@ -110,7 +110,12 @@ template<class C> struct Acc
       proj_reserve(p, p.n + 1);
       Ent& e = p.e[p.n++];
       const Tracked& val = *i;
-      e.k = i.key().value; e.v = val.value; e.id = val.serial; e.addr = addr_id(&val); e.node = i.item;
+      e.k = i.key().value; e.v = val.value; e.id = val.serial; e.node = i.item;
+      // address id: cached per element while its node is unchanged (addr_id() searches linearly)
+      if(e.id > 0 && e.id < kept_cap && kept[e.id].cont && kept[e.id].item == e.node && kept[e.id].addr == (const void*)&val)
+        e.addr = kept[e.id].addrid;
+      else
+        e.addr = addr_id(&val);
     }
   }
   // backward iteration from end() yields the reverse of the forward projection
@@ -269,7 +274,7 @@ template<class C> static void finish_event(int c, C** arr, int base, long cmp)
       Kept& kp = kept[e.id];
       if(!kp.cont)
       { // first sight (the observation right after the insertion): keep the iterator (= node) and the element address
-        kp.cont = (char)j; kp.item = e.node;
+        kp.cont = (char)j; kp.item = e.node; kp.addrid = e.addr;
         kp.addr = j <= 2 ? (const void*)&*TMap::Iterator((TMap::Item*)kp.item) : (const void*)&*TMulti::Iterator((TMulti::Item*)kp.item);
         continue;
       }
@@ -418,6 +423,7 @@ void drv_init(int argc, char** argv)
 {
   for(int i = 3; i < argc; ++i) if(!strcmp(argv[i], "noshape")) g_shape = 0;
   trk_reset_registry();
+  g_op_timeout = 5;     // one operation (plus its logging) takes microseconds; a longer one is a hang
 }
 void drv_fini()
 {
